@@ -22,7 +22,13 @@ pub struct Case {
 pub fn arb_item(depth: u32, cfg: GenCfg) -> BoxedStrategy<Item> {
     prop_oneof![
         5 => arb_any(depth, cfg).prop_map(Item::Val),
-        1 => ("[a-zA-Z_][a-zA-Z0-9_.]{0,20}", 1u8..=4, vcore::tval::arb_i32(), arb_of(TT::Struct, depth, cfg))
+        // method names: usual identifiers, the empty name, and long ones (inline-string limits,
+        // one- vs two-byte length varints)
+        1 => (prop_oneof![
+                6 => "[a-zA-Z_][a-zA-Z0-9_.]{0,20}".boxed(),
+                1 => Just(String::new()).boxed(),
+                2 => (prop::sample::select(vec![23usize, 24, 25, 31, 32, 63, 64, 127, 128, 129, 300]), "[a-zA-Z]").prop_map(|(n, c)| c.repeat(n)).boxed(),
+            ], 1u8..=4, vcore::tval::arb_i32(), arb_of(TT::Struct, depth, cfg))
             .prop_map(|(name, mtype, seq, body)| Item::Msg { name, mtype, seq, body }),
     ]
     .boxed()
